@@ -253,7 +253,9 @@ def tri(it: M.Interp, premise: Formula, conclusion: Formula) -> tuple[str, "dict
         if consistent and robust:
             # a free atom that depends on the external options may stand for a pattern test in a spelling the model does not
             # know: then nothing can be said about EXCL / HAS
-            opaque = sorted(a for a in names_ if not is_canonical(a) and it.taint_of_atom(a) & {"FLAG", "EXT"} and not a.startswith("ISNONE["))
+            # (`EXCL(<name>)`: the patterns applied to one particular name that is not the element's own - understood)
+            opaque = sorted(a for a in names_ if not is_canonical(a) and it.taint_of_atom(a) & {"FLAG", "EXT"} and not a.startswith(("ISNONE[", "EXCL(")))
+            opaque = sorted(set(opaque) | set(not_understood(it, premise, conclusion)))
             if opaque:
                 return "undecided", {a: True for a in opaque}
             return "violated", witness
@@ -274,6 +276,20 @@ def about_entry_options(it: M.Interp, a: str) -> bool:
     body = re.sub(r"'[^']*'|\"[^\"]*\"", "", m.group(2))
     ids = [t for t in re.findall(r"[A-Za-z_][A-Za-z0-9_]*", body) if t not in _OPS]
     return bool(ids) and all(t in it.entry.param_names for t in ids)
+
+
+def understood(it: M.Interp, a: str) -> bool:
+    """Atoms whose meaning the model knows.  Values and tests the model had to leave open (a call it could not follow, a read from a
+    dictionary, an object compared as a value, a quantifier it could not resolve ...) carry the mark GAP; a verdict VIOLATED is
+    only given on formulas free of them: a counter-example built on a gap may not exist."""
+    return "GAP" not in it.taint_of_atom(a) and not a.startswith("§")
+
+
+def not_understood(it: M.Interp, *fs: Formula) -> list[str]:
+    out: set[str] = set()
+    for f in fs:
+        out |= {a for a in atoms_of(f) if not understood(it, a)}
+    return sorted(out)
 
 
 def fmt_env(env: "dict | None", only: "set[str] | None" = None) -> str:
@@ -395,6 +411,10 @@ def check_sink(repo: Repo, res: Result, it: M.Interp, s: M.Sink) -> None:
             if a.startswith(NAME_RELATIONAL) and M.mentions(a, E) and depends_on_options(it, k, {**assume, a: True}) is None:
                 res.undecide("C10.R1", sink_key + f" [{what}]", f"the retention of an internal element, `{show(k)}`, is independent of the external options only if `{a}` holds for internal elements: a test on the name that is not the recognised internal test decides here", sink_where)
                 return
+        unknown = not_understood(it, k)
+        if unknown:
+            res.undecide("C10.R1", sink_key + f" [{what}]", f"the retention of an internal element, `{show(k)}`, seems to depend on the external options, but it contains tests the model does not know: {', '.join(unknown)}", sink_where)
+            return
         # name the filters without which the dependence disappears
         named = False
         base_ok = scanned if what == "modules" else any_base
